@@ -313,13 +313,13 @@ def simulate(g, lr, toks, ws=False, nl=False, verbose=False):
 def bounds(g, lr, L, verbose=False, with_other=True):
     """max steps / depth / log sizes over all inputs of exactly L symbols (terms + one non-term byte class)"""
     alpha = list(range(g.nt)) + (['x'] if with_other else [])
-    m = dict(steps=0, depth=0, nmsg=0, nred=0, nterm=0, accepted=0, total=0, recovered=0, nstates_printed=0, syn_only=0, lex_only=0)
+    m = dict(steps=0, depth=0, nmsg=0, nred=0, nterm=0, accepted=0, total=0, recovered=0, nstates_printed=0, syn_only=0, lex_only=0, acc_nred=0)
     for toks in itertools.product(alpha, repeat=L):
         r = simulate(g, lr, toks, verbose=verbose)
         for k in ('steps', 'depth', 'nmsg', 'nred', 'nterm'): m[k] = max(m[k], r[k])
         m['nstates_printed'] = max(m['nstates_printed'], sum(1 for x in r['msgs'] if x[0] in ('SHIFT', 'GOTO', 'RECOVERING_TO')))
         m['total'] += 1
-        if r['ok']: m['accepted'] += 1
+        if r['ok']: m['accepted'] += 1; m['acc_nred'] = max(m['acc_nred'], r['nred'])
         if r['ok'] and any(x[0] == 'SYNTAX_ERROR' for x in r['msgs']): m['recovered'] += 1
         em = [x[0] for x in r['msgs'] if x[0] in ('SYNTAX_ERROR', 'UNEXPECTED_CHAR')]
         if not r['ok'] and em == ['SYNTAX_ERROR']: m['syn_only'] += 1
